@@ -134,4 +134,15 @@ PROPS = {
         "level_text": "Lean theorems: C02_ipv6_refused (any string with a colon is refused), C02_parse_exact (an accepted target is a 4-byte network equal to what the string denotes by an independent decimal/split reader), round trips for all 2^32 hosts x 33 prefixes, C02_no_panic (the address generator neither fails nor reaches its FillBytes panic on any accepted target), C02_confined_* (every probe of every engine run, for ANY target-file content, goes to a source address that is not excluded, on a requested port) and C02_exclusion_exact (the filter's membership test is exactly block membership). Tied to the code by the real ip.ParseIPNet on grammar-generated strings and the real generators + real --exclude parser + cidranger.",
         "level_note": "Trusted: Lean kernel + Mathlib (via C04); the stdlib model for colon-free strings is validated differentially on every run, not proved.",
     },
+    "C06": {
+        "modules": ["SxVerif.Props.C06"],
+        "components": ["proc"],
+        "trusted_base": [
+            "modelled, not verified: gopacket layers.{Ethernet,IPv4,TCP,ICMPv4,ARP}.DecodeFromBytes, NextLayerType, LayerPayload and the DecodingLayerParser loop with IgnoreUnsupported and panicToError (Model/Frame.lean), incl. uint8 wrap-around in the ARP decoder and the slice-capacity = length assumption for captured frames",
+            "macs.ValidMACPrefixMap (vendor lookup) is opaque",
+        ],
+        "assumptions": ["a received frame is delivered as a slice whose capacity equals its length (as the harness does; AF_PACKET v3 blocks may be laxer, which can only turn a recovered panic into an error-free decode of bytes of the same ring block)"],
+        "level_text": "Lean theorems C06_step / C06_history / C06_terminates: for every byte string, every prior contents of the reused decoder structs and every sequence of frames, the three processors never reach a panic, emit at most one record per frame, and emit it only if the frame itself contains the flat, offset-defined header chain of Spec/Frame.lean (version 4, IHL/lengths consistent, well-delimited options, unfragmented; ARP 1/0x0800/6/4) with every record field read from that frame. Tied to the code by histories of structurally generated and malformed frames through the real ScanMethod.ProcessPacketData.",
+        "level_note": "Trusted: Lean kernel; the gopacket decoder model is validated differentially (1.5k histories quick / 25k thorough), not proved.",
+    },
 }
